@@ -631,7 +631,7 @@ def kl_case(ctx, kind, S, prior, xs, ds, stream, lines, pend):
     ctx.hit('leaves/{}/{}'.format(kind, 'div-by-zero' if has_sing else
                                   ('interior' if in_dom else 'outside-domain')))
     ctx.case(('leaf', kind, S.kind, prior is None, in_dom), sample=desc if len(ctx.samples) < 10 else None)
-    if not finite:
+    if not finite or has_sing:
         return
     # oracle 1: the documented formula
     dg = _kl_doc_grad(kind, g if prior is None else prior, xs)
